@@ -4,8 +4,10 @@
   Main results (all generic in the system `y`, any fuel):
   * `explore_sound`, `explore_complete` : the list returned by `explore` is exactly the set of reachable states;
   * `checkAll_sound`, `checkInv_sound`  : a Bool check that evaluates to `true` proves `P` for EVERY reachable state;
+  * `checkAllAny_sound`                 : … and, from the same exploration, that SOME reachable state satisfies `Q`;
   * `findBad_sound`                     : a schedule returned by `findBad` is a genuine run to a state violating `P`;
   * `canFinish_sound`, `canFinish_all`  : `canFinish` exhibits a solo run of process `i` to `halt`;
+  * `canReach_sound`, `canReach_all`    : `canReach` exhibits a run of a GROUP of processes (strict moves only) to a goal;
   * `strictNext_sub_next`, `enabledStrict_iff`, `enabledStrict_progress` : meaning of the strict-enabledness predicate.
 -/
 import RaftGen.Chan.Explore
@@ -297,6 +299,19 @@ theorem checkAll_sound {y : Sys} {fuel : Nat} {P : State → Bool} (h : checkAll
   · next vs hv => exact fun s hs => List.all_eq_true.1 h s (explore_sound hv s hs)
   · exact nomatch h
 
+/-- **Soundness of `checkAllAny`**: `P` holds in every reachable state, and some reachable state satisfies `Q`
+(the explored list contains every reachable state, and reachable states only). -/
+theorem checkAllAny_sound {y : Sys} {fuel : Nat} {P Q : State → Bool} (h : checkAllAny y fuel P Q = true) :
+    (∀ s, Reachable y s → P s = true) ∧ (∃ s, Reachable y s ∧ Q s = true) := by
+  unfold checkAllAny at h
+  split at h
+  · next vs hv =>
+    simp only [Bool.and_eq_true] at h
+    refine ⟨fun s hs => List.all_eq_true.1 h.1 s (explore_sound hv s hs), ?_⟩
+    obtain ⟨t, ht, hq⟩ := List.any_eq_true.1 h.2
+    exact ⟨t, explore_complete hv t ht, hq⟩
+  · exact nomatch h
+
 theorem trieOf_has : ∀ (vs : List State) (s : State), (trieOf vs).has s = true → s ∈ vs
   | [], s, h => by simp [trieOf, Trie.has, Trie.contains_full] at h
   | v :: vs, s, h => by
@@ -437,6 +452,13 @@ theorem findBad_reachable {y : Sys} {fuel : Nat} {P : State → Bool} {tr : List
     (h : findBad y fuel P = some tr) : ∃ s, Reachable y s ∧ P s = false :=
   ⟨_, reachable_of_isRun _ _ Reachable.init (findBad_sound h).1, (findBad_sound h).2⟩
 
+/-- the form used by theorems that exhibit a counterexample: evaluate `(findBad y fuel P).isSome` (e.g. `by decide +kernel`) -/
+theorem findBad_exists {y : Sys} {fuel : Nat} {P : State → Bool} (h : (findBad y fuel P).isSome = true) :
+    ∃ s, Reachable y s ∧ P s = false := by
+  cases hf : findBad y fuel P with
+  | some tr => exact findBad_reachable hf
+  | none => rw [hf] at h; exact nomatch h
+
 /-! ## The semantics: panics, strict moves -/
 
 /-- a panicked state has no successor -/
@@ -471,6 +493,8 @@ theorem procStrict_sub {y : Sys} {s : State} {i : Nat} {p : Nat × State} (h : p
   · exact h
   · exact h
   · exact h
+  · revert h
+    cases recvReady s _ <;> simp
 
 theorem recvSucc_label {y : Sys} {s : State} {i : Nat} {k : Comm} {p : Nat × State}
     (h : p ∈ recvSucc y s i k) : p.1 = i := by
@@ -488,6 +512,7 @@ theorem partnerSucc_label {y : Sys} {s : State} {i j : Nat} {hasD : Bool} {k : C
   repeat' split at h
   all_goals first
     | exact absurd h List.not_mem_nil
+    | (cases List.mem_singleton.1 h; rfl)
     | skip
   simp only [List.mem_filterMap] at h
   obtain ⟨k', _, hk'⟩ := h
@@ -509,6 +534,18 @@ theorem sendSucc_label {y : Sys} {s : State} {i : Nat} {hasD : Bool} {k : Comm} 
   split at hk
   · exact absurd hk List.not_mem_nil
   · exact partnerSucc_label hk
+
+theorem rangeSucc_label {y : Sys} {s : State} {i c nI nC : Nat} {p : Nat × State}
+    (h : p ∈ rangeSucc y s i c nI nC) : p.1 = i := by
+  unfold rangeSucc at h
+  simp only [Bool.cond_eq_ite] at h
+  repeat' split at h
+  all_goals first
+    | exact absurd h List.not_mem_nil
+    | (cases List.mem_singleton.1 h; rfl)
+    | (rcases List.mem_cons.1 h with h | h
+       · cases h; rfl
+       · cases List.mem_singleton.1 h; rfl)
 
 theorem dfltSucc_label {y : Sys} {s : State} {i : Nat} {cs : List Comm} {d : Option Nat} {p : Nat × State}
     (h : p ∈ dfltSucc y s i cs d) : p.1 = i := by
@@ -536,6 +573,7 @@ theorem procNext_label {y : Sys} {s : State} {i : Nat} {p : Nat × State} (h : p
     obtain ⟨n, _, hn⟩ := h
     cases hn; rfl
   · exact absurd h List.not_mem_nil
+  · exact rangeSucc_label h
 
 theorem procNext_of_ge {y : Sys} {s : State} {i : Nat} (h : y.procs.length ≤ i) : procNext y s i = [] := by
   unfold procNext Sys.nodeAt
@@ -587,6 +625,18 @@ theorem caseSucc_ne_nil {y : Sys} {s : State} {i : Nat} {hasD : Bool} {k : Comm}
     · simp only [cond]
       exact List.cons_ne_nil _ _
 
+/-- a `recvOrClosed` on a non-empty or closed channel has a successor -/
+theorem rangeSucc_ne_nil {y : Sys} {s : State} {i c nI nC : Nat}
+    (h : recvReady s c = true) : rangeSucc y s i c nI nC ≠ [] := by
+  unfold recvReady at h
+  unfold rangeSucc
+  cases h1 : Nat.blt 0 (s.buf c)
+  · simp only [h1, Bool.false_or] at h
+    simp only [h, cond]
+    exact List.cons_ne_nil _ _
+  · simp only [cond]
+    exact List.cons_ne_nil _ _
+
 /-- **Meaning of `enabledStrict`**: process `i` has returned, or has at least one strict move. -/
 theorem enabledStrict_iff {y : Sys} {s : State} {i : Nat} :
     enabledStrict y s i = true ↔ (halted y s i = true ∨ strictNext y s i ≠ []) := by
@@ -596,6 +646,12 @@ theorem enabledStrict_iff {y : Sys} {s : State} {i : Nat} :
   | halt => simp
   | close c n => cases hb : s.bad <;> simp
   | choice ns => cases hb : s.bad <;> simp
+  | recvOrClosed c nI nC =>
+    cases hb : s.bad
+    · cases hr : recvReady s c
+      · simp [hr]
+      · simpa [hr] using rangeSucc_ne_nil (y := y) (i := i) (nI := nI) (nC := nC) hr
+    · simp
   | comm cs d =>
     cases hb : s.bad
     · simp only [Bool.not_false, Bool.true_and, cond, Bool.false_eq_true, false_or, Bool.or_eq_true,
@@ -688,16 +744,87 @@ theorem canFinish_all {y : Sys} {fuel fuel' i : Nat} {G : State → Bool}
   obtain ⟨t, ht, hh⟩ := canFinish_sound this
   exact ⟨t, ht, hh, ht.reachable hs⟩
 
+/-! ## Can a group of processes reach a goal on its own -/
+
+theorem soloNext_label_sub {y : Sys} {g : List Nat} {s t : State} (h : t ∈ groupNext y g s) :
+    ∃ i, i ∈ g ∧ (i, t) ∈ y.next s := by
+  simp only [groupNext, List.mem_flatMap] at h
+  obtain ⟨i, hi, ht⟩ := h
+  exact ⟨i, hi, soloNext_sub_next ht⟩
+
+/-- `t` is reachable from `s` by non-panicking strict moves of the processes of `g` alone -/
+def GroupReach (y : Sys) (g : List Nat) (s t : State) : Prop := ReachG (groupNext y g) [s] t
+
+/-- a run of the group is a run of the system -/
+theorem GroupReach.reachable {y : Sys} {g : List Nat} {s t : State} (hs : Reachable y s) (h : GroupReach y g s t) :
+    Reachable y t := by
+  induction h with
+  | init hi => cases List.mem_singleton.1 hi; exact hs
+  | step _ ht ih =>
+    obtain ⟨i, _, hi⟩ := soloNext_label_sub ht
+    exact Reachable.step ih hi
+
+/-- a run of the group never panics (beyond its start) -/
+theorem GroupReach.noPanic {y : Sys} {g : List Nat} {s t : State} (hs : noPanic s = true) (h : GroupReach y g s t) :
+    noPanic t = true := by
+  induction h with
+  | init hi => cases List.mem_singleton.1 hi; exact hs
+  | step _ ht _ =>
+    simp only [groupNext, List.mem_flatMap] at ht
+    obtain ⟨i, _, ht⟩ := ht
+    exact (List.mem_filter.1 ht).2
+
+/-- a solo run is a run of the one-element group -/
+theorem SoloReach.group {y : Sys} {i : Nat} {s t : State} (h : SoloReach y i s t) : GroupReach y [i] s t := by
+  induction h with
+  | init hi => exact ReachG.init hi
+  | step _ ht ih => exact ReachG.step ih (by simpa [groupNext] using ht)
+
+theorem searchLoop_spec {succ : State → List State} {inits : List State} {goal : State → Bool} :
+    ∀ (fuel : Nat) (a : Acc), Inv succ inits a → searchLoop succ goal fuel a = true →
+      ∃ t, ReachG succ inits t ∧ goal t = true
+  | 0, _, _, he => by simp [searchLoop] at he
+  | fuel + 1, a, h, he => by
+    simp only [searchLoop] at he
+    split at he
+    · exact nomatch he
+    · next s rest hw =>
+      cases hg : goal s
+      · simp only [hg, cond] at he
+        exact searchLoop_spec fuel _ (h.expand hw) he
+      · exact ⟨s, h.reach s (h.ok.work s (by rw [hw]; exact List.mem_cons_self)), hg⟩
+
+/-- **Soundness of `canReach`**: there is a run of the group `g` alone (strict moves, no panic) from `s` to a goal state. -/
+theorem canReach_sound {y : Sys} {fuel : Nat} {g : List Nat} {goal : State → Bool} {s : State}
+    (h : canReach y fuel g goal s = true) : ∃ t, GroupReach y g s t ∧ goal t = true :=
+  searchLoop_spec fuel _ (Inv.start _ _) h
+
+/-- **Leads-to under a guard, for a group**: if the Bool check `G s → canReach y fuel' g goal s` evaluates to `true` over the
+explored state space, then from EVERY reachable state satisfying `G` the processes of `g` can bring the system to a goal
+state on their own (strict moves only, nobody else moves, no panic), and that state is reachable. -/
+theorem canReach_all {y : Sys} {fuel fuel' : Nat} {g : List Nat} {G goal : State → Bool}
+    (h : checkAll y fuel (fun s => !G s || canReach y fuel' g goal s) = true) :
+    ∀ s, Reachable y s → G s = true → ∃ t, GroupReach y g s t ∧ goal t = true ∧ Reachable y t := by
+  intro s hs hg
+  have := checkAll_sound h s hs
+  simp only [hg, Bool.not_true, Bool.false_or] at this
+  obtain ⟨t, ht, hh⟩ := canReach_sound this
+  exact ⟨t, ht, hh, ht.reachable hs⟩
+
 #print axioms explore_sound
 #print axioms explore_complete
 #print axioms checkAll_sound
+#print axioms checkAllAny_sound
 #print axioms checkInv_sound
 #print axioms findBad_sound
 #print axioms findBad_reachable
+#print axioms findBad_exists
 #print axioms strictNext_sub_next
 #print axioms enabledStrict_iff
 #print axioms enabledStrict_progress
 #print axioms canFinish_sound
 #print axioms canFinish_all
+#print axioms canReach_sound
+#print axioms canReach_all
 
 end Raft.Chan
